@@ -234,3 +234,13 @@ func GenBadDoc(p *simrt.Tape, o GenOpts) *Doc {
 
 // FetchLatencies for slow sources.
 var FetchLatencies = []time.Duration{0, 0, 0, time.Millisecond, 300 * time.Millisecond, 2 * time.Second}
+
+// GenShapedDoc draws a usable document and replaces one to three of its JSON nodes.
+func GenShapedDoc(p *simrt.Tape, o GenOpts) *Doc {
+	d := GenGoodDoc(p, o)
+	d.Kind = "shaped"
+	for i, n := 0, p.Range(1, 3); i < n; i++ {
+		d.Shape = append(d.Shape, ShapeMut{Node: p.Intn(64), Repl: p.Pick(len(ShapeRepls))})
+	}
+	return d
+}
